@@ -572,6 +572,55 @@ pub fn run() -> i32 {
     ctx.absorb("cores-increment", st);
     corpus.into_inner().unwrap().flush().unwrap();
     ctx.note("second_reference_corpus", json!(corpus_path));
+    {
+        let m1 = cval(seed, 3, 200);
+        let m2 = cval(seed, 2, 129);
+        let k1: [u8; 32] = karr(seed ^ 0x7, 3);
+        let k2: [u8; 32] = karr(seed ^ 0x7, 2);
+        let mut t: Vec<crate::purity::Entry> = vec![];
+        for (name, m, k) in [("m1k1", m1.clone(), k1), ("m2k2", m2.clone(), k2)] {
+            let (a, b) = (m.clone(), k);
+            t.push((if name == "m1k1" { "generichash(keyed) #1" } else { "generichash(keyed) #2" }, Box::new(move || dry_generichash(48, &a, Some(&b[..])).unwrap_or_default())));
+            let a = m.clone();
+            t.push((if name == "m1k1" { "generichash(unkeyed) #1" } else { "generichash(unkeyed) #2" }, Box::new(move || dry_generichash(32, &a, None).unwrap_or_default())));
+            let a = m.clone();
+            t.push((if name == "m1k1" { "GenericHash<32,64> #1" } else { "GenericHash<32,64> #2" }, Box::new(move || gh_object(32, 64, &a, Some(&k[..])).unwrap_or_default())));
+            let a = m.clone();
+            t.push((if name == "m1k1" { "sha512 #1" } else { "sha512 #2" }, Box::new(move || {
+                let mut d = [0u8; 64];
+                crypto_hash_sha512(&mut d, &a);
+                d.to_vec()
+            })));
+            let a = m.clone();
+            t.push((if name == "m1k1" { "auth #1" } else { "auth #2" }, Box::new(move || {
+                let mut d = [0u8; 32];
+                crypto_auth(&mut d, &a, &k);
+                d.to_vec()
+            })));
+            let a = m.clone();
+            t.push((if name == "m1k1" { "onetimeauth #1" } else { "onetimeauth #2" }, Box::new(move || {
+                let mut d = [0u8; 16];
+                crypto_onetimeauth(&mut d, &a, &k);
+                d.to_vec()
+            })));
+            let a = m.clone();
+            t.push((if name == "m1k1" { "shorthash #1" } else { "shorthash #2" }, Box::new(move || {
+                let mut d = [0u8; 8];
+                crypto_shorthash(&mut d, &a, k[..16].try_into().unwrap());
+                d.to_vec()
+            })));
+            t.push((if name == "m1k1" { "hsalsa20 #1" } else { "hchacha20 #2" }, Box::new(move || {
+                let mut d = [0u8; 32];
+                if name == "m1k1" {
+                    crypto_core_hsalsa20(&mut d, k[..16].try_into().unwrap(), &k, None);
+                } else {
+                    crypto_core_hchacha20(&mut d, k[..16].try_into().unwrap(), &k, None);
+                }
+                d.to_vec()
+            })));
+        }
+        crate::purity::triples(&mut ctx, "C07", "C07.prim", t);
+    }
     ctx.require_outcome("blake2b==libsodium");
     ctx.require_outcome("poly1305-accumulator==libsodium");
     ctx.require_outcome("verify-rejects-all-384-mutations");
